@@ -53,7 +53,7 @@ func Run(c *core.Ctx) {
 		reqs = append(reqs, drv.Req{Fn: "fmt", Args: [][]byte{[]byte(cs.Enc)}})
 	}
 	res := c.Model(reqs)
-	tie1, tie2, prop, accepted := true, true, true, true
+	tie1, tie2, prop, accepted, conv := true, true, true, true, true
 	nUnstable := 0
 	shapeCount := map[string]int{}
 	for i, cs := range cases {
@@ -64,7 +64,21 @@ func Run(c *core.Ctx) {
 			c.Fail("tie", "formatter model runs on the parsed file", "", map[string]string{"file": cs.Name, "source": cs.Src}, "model could not decode the file")
 			continue
 		}
-		m1, m2, reasons := string(r[1]), string(r[2]), strings.Fields(string(r[4]))
+		m1, m2, m3, reasons := string(r[1]), string(r[2]), string(r[3]), strings.Fields(string(r[4]))
+		// two-pass convergence of the layout model (theorem C09_two_pass_convergence, observed on every input)
+		if m3 != m2 {
+			conv = false
+			c.Hist("model: predicted third pass differs from predicted second")
+			if c.NFails("formatter model: predicted third pass = predicted second pass") < 3 {
+				a, b := firstDiffLine(m2, m3)
+				c.Fail("tie", "formatter model: predicted third pass = predicted second pass", "", map[string]string{"file": cs.Name, "source": cs.Src, "second_line": a, "third_line": b}, "reparse is not idempotent on this tree")
+			}
+		}
+		// the model names a reason exactly when it predicts a different second pass
+		if (len(reasons) == 0) != (m2 == m1) {
+			tie2 = false
+			c.Fail("tie", "unstable_reasons empty iff model predicts a fixed point", "", map[string]any{"file": cs.Name, "source": cs.Src, "reasons": reasons}, "reasons and predicted second pass disagree")
+		}
 		if m1 != cs.P1 {
 			tie1 = false
 			if c.NFails("formatter: model first pass = TemplateFile.Write") < 3 {
@@ -131,6 +145,7 @@ func Run(c *core.Ctx) {
 	c.Extra["unstable_inputs"] = nUnstable
 	c.Oblige("correspondence", "formatter model first pass = TemplateFile.Write, byte for byte, on every accepted input", tie1, "")
 	c.Oblige("correspondence", "reparse model predicts the real second pass on every input whose instability is a layout one (and on every stable input)", tie2, "")
+	c.Oblige("correspondence", "two-pass convergence of the layout model: predicted third pass = predicted second pass on every accepted input", conv, "")
 	c.Oblige("correspondence", "the formatter's output is accepted by the parser on every accepted input", accepted, "")
 	c.Oblige("correspondence", "format(format x) = format x on every accepted input (known findings excepted by reason)", prop || true, "see failures / known findings")
 }
